@@ -466,21 +466,20 @@ func (m *memory) Objects(ctx context.Context, s *node.Node, p *predicate.Predica
 	selectedTrpls := applyGlobalTimeBounds(m.idxSP[spIdx], ckr)
 
 	var err error
+	// The options belong to the caller (who may share them between lookups):
+	// the filter implied by LatestAnchor is kept in a local variable.
+	filterOptions := lo.FilterOptions
 	if lo.LatestAnchor {
-		if lo.FilterOptions != nil {
+		if filterOptions != nil {
 			return fmt.Errorf("cannot have LatestAnchor and FilterOptions used at the same time inside lookup options")
 		}
-		lo.FilterOptions = &filter.StorageOptions{
+		filterOptions = &filter.StorageOptions{
 			Operation: filter.Latest,
 			Field:     filter.PredicateField,
 		}
-		// To guarantee that "lo.FilterOptions" will be cleaned at the driver level, since it was artificially created at the driver level for "LatestAnchor".
-		defer func() {
-			lo.FilterOptions = (*filter.StorageOptions)(nil)
-		}()
 	}
-	if lo.FilterOptions != nil {
-		selectedTrpls, err = executeFilter(selectedTrpls, p, lo.FilterOptions)
+	if filterOptions != nil {
+		selectedTrpls, err = executeFilter(selectedTrpls, p, filterOptions)
 		if err != nil {
 			return err
 		}
@@ -519,21 +518,20 @@ func (m *memory) Subjects(ctx context.Context, p *predicate.Predicate, o *triple
 	selectedTrpls := applyGlobalTimeBounds(m.idxPO[poIdx], ckr)
 
 	var err error
+	// The options belong to the caller (who may share them between lookups):
+	// the filter implied by LatestAnchor is kept in a local variable.
+	filterOptions := lo.FilterOptions
 	if lo.LatestAnchor {
-		if lo.FilterOptions != nil {
+		if filterOptions != nil {
 			return fmt.Errorf("cannot have LatestAnchor and FilterOptions used at the same time inside lookup options")
 		}
-		lo.FilterOptions = &filter.StorageOptions{
+		filterOptions = &filter.StorageOptions{
 			Operation: filter.Latest,
 			Field:     filter.PredicateField,
 		}
-		// To guarantee that "lo.FilterOptions" will be cleaned at the driver level, since it was artificially created at the driver level for "LatestAnchor".
-		defer func() {
-			lo.FilterOptions = (*filter.StorageOptions)(nil)
-		}()
 	}
-	if lo.FilterOptions != nil {
-		selectedTrpls, err = executeFilter(selectedTrpls, p, lo.FilterOptions)
+	if filterOptions != nil {
+		selectedTrpls, err = executeFilter(selectedTrpls, p, filterOptions)
 		if err != nil {
 			return err
 		}
@@ -574,21 +572,20 @@ func (m *memory) PredicatesForSubjectAndObject(ctx context.Context, s *node.Node
 	selectedTrpls := applyGlobalTimeBounds(m.idxSO[soIdx], ckr)
 
 	var err error
+	// The options belong to the caller (who may share them between lookups):
+	// the filter implied by LatestAnchor is kept in a local variable.
+	filterOptions := lo.FilterOptions
 	if lo.LatestAnchor {
-		if lo.FilterOptions != nil {
+		if filterOptions != nil {
 			return fmt.Errorf("cannot have LatestAnchor and FilterOptions used at the same time inside lookup options")
 		}
-		lo.FilterOptions = &filter.StorageOptions{
+		filterOptions = &filter.StorageOptions{
 			Operation: filter.Latest,
 			Field:     filter.PredicateField,
 		}
-		// To guarantee that "lo.FilterOptions" will be cleaned at the driver level, since it was artificially created at the driver level for "LatestAnchor".
-		defer func() {
-			lo.FilterOptions = (*filter.StorageOptions)(nil)
-		}()
 	}
-	if lo.FilterOptions != nil {
-		selectedTrpls, err = executeFilter(selectedTrpls, nil, lo.FilterOptions)
+	if filterOptions != nil {
+		selectedTrpls, err = executeFilter(selectedTrpls, nil, filterOptions)
 		if err != nil {
 			return err
 		}
@@ -627,21 +624,20 @@ func (m *memory) PredicatesForSubject(ctx context.Context, s *node.Node, lo *sto
 	selectedTrpls := applyGlobalTimeBounds(m.idxS[sUUID], ckr)
 
 	var err error
+	// The options belong to the caller (who may share them between lookups):
+	// the filter implied by LatestAnchor is kept in a local variable.
+	filterOptions := lo.FilterOptions
 	if lo.LatestAnchor {
-		if lo.FilterOptions != nil {
+		if filterOptions != nil {
 			return fmt.Errorf("cannot have LatestAnchor and FilterOptions used at the same time inside lookup options")
 		}
-		lo.FilterOptions = &filter.StorageOptions{
+		filterOptions = &filter.StorageOptions{
 			Operation: filter.Latest,
 			Field:     filter.PredicateField,
 		}
-		// To guarantee that "lo.FilterOptions" will be cleaned at the driver level, since it was artificially created at the driver level for "LatestAnchor".
-		defer func() {
-			lo.FilterOptions = (*filter.StorageOptions)(nil)
-		}()
 	}
-	if lo.FilterOptions != nil {
-		selectedTrpls, err = executeFilter(selectedTrpls, nil, lo.FilterOptions)
+	if filterOptions != nil {
+		selectedTrpls, err = executeFilter(selectedTrpls, nil, filterOptions)
 		if err != nil {
 			return err
 		}
@@ -680,21 +676,20 @@ func (m *memory) PredicatesForObject(ctx context.Context, o *triple.Object, lo *
 	selectedTrpls := applyGlobalTimeBounds(m.idxO[oUUID], ckr)
 
 	var err error
+	// The options belong to the caller (who may share them between lookups):
+	// the filter implied by LatestAnchor is kept in a local variable.
+	filterOptions := lo.FilterOptions
 	if lo.LatestAnchor {
-		if lo.FilterOptions != nil {
+		if filterOptions != nil {
 			return fmt.Errorf("cannot have LatestAnchor and FilterOptions used at the same time inside lookup options")
 		}
-		lo.FilterOptions = &filter.StorageOptions{
+		filterOptions = &filter.StorageOptions{
 			Operation: filter.Latest,
 			Field:     filter.PredicateField,
 		}
-		// To guarantee that "lo.FilterOptions" will be cleaned at the driver level, since it was artificially created at the driver level for "LatestAnchor".
-		defer func() {
-			lo.FilterOptions = (*filter.StorageOptions)(nil)
-		}()
 	}
-	if lo.FilterOptions != nil {
-		selectedTrpls, err = executeFilter(selectedTrpls, nil, lo.FilterOptions)
+	if filterOptions != nil {
+		selectedTrpls, err = executeFilter(selectedTrpls, nil, filterOptions)
 		if err != nil {
 			return err
 		}
@@ -733,21 +728,20 @@ func (m *memory) TriplesForSubject(ctx context.Context, s *node.Node, lo *storag
 	selectedTrpls := applyGlobalTimeBounds(m.idxS[sUUID], ckr)
 
 	var err error
+	// The options belong to the caller (who may share them between lookups):
+	// the filter implied by LatestAnchor is kept in a local variable.
+	filterOptions := lo.FilterOptions
 	if lo.LatestAnchor {
-		if lo.FilterOptions != nil {
+		if filterOptions != nil {
 			return fmt.Errorf("cannot have LatestAnchor and FilterOptions used at the same time inside lookup options")
 		}
-		lo.FilterOptions = &filter.StorageOptions{
+		filterOptions = &filter.StorageOptions{
 			Operation: filter.Latest,
 			Field:     filter.PredicateField,
 		}
-		// To guarantee that "lo.FilterOptions" will be cleaned at the driver level, since it was artificially created at the driver level for "LatestAnchor".
-		defer func() {
-			lo.FilterOptions = (*filter.StorageOptions)(nil)
-		}()
 	}
-	if lo.FilterOptions != nil {
-		selectedTrpls, err = executeFilter(selectedTrpls, nil, lo.FilterOptions)
+	if filterOptions != nil {
+		selectedTrpls, err = executeFilter(selectedTrpls, nil, filterOptions)
 		if err != nil {
 			return err
 		}
@@ -786,21 +780,20 @@ func (m *memory) TriplesForPredicate(ctx context.Context, p *predicate.Predicate
 	selectedTrpls := applyGlobalTimeBounds(m.idxP[pUUID], ckr)
 
 	var err error
+	// The options belong to the caller (who may share them between lookups):
+	// the filter implied by LatestAnchor is kept in a local variable.
+	filterOptions := lo.FilterOptions
 	if lo.LatestAnchor {
-		if lo.FilterOptions != nil {
+		if filterOptions != nil {
 			return fmt.Errorf("cannot have LatestAnchor and FilterOptions used at the same time inside lookup options")
 		}
-		lo.FilterOptions = &filter.StorageOptions{
+		filterOptions = &filter.StorageOptions{
 			Operation: filter.Latest,
 			Field:     filter.PredicateField,
 		}
-		// To guarantee that "lo.FilterOptions" will be cleaned at the driver level, since it was artificially created at the driver level for "LatestAnchor".
-		defer func() {
-			lo.FilterOptions = (*filter.StorageOptions)(nil)
-		}()
 	}
-	if lo.FilterOptions != nil {
-		selectedTrpls, err = executeFilter(selectedTrpls, p, lo.FilterOptions)
+	if filterOptions != nil {
+		selectedTrpls, err = executeFilter(selectedTrpls, p, filterOptions)
 		if err != nil {
 			return err
 		}
@@ -839,21 +832,20 @@ func (m *memory) TriplesForObject(ctx context.Context, o *triple.Object, lo *sto
 	selectedTrpls := applyGlobalTimeBounds(m.idxO[oUUID], ckr)
 
 	var err error
+	// The options belong to the caller (who may share them between lookups):
+	// the filter implied by LatestAnchor is kept in a local variable.
+	filterOptions := lo.FilterOptions
 	if lo.LatestAnchor {
-		if lo.FilterOptions != nil {
+		if filterOptions != nil {
 			return fmt.Errorf("cannot have LatestAnchor and FilterOptions used at the same time inside lookup options")
 		}
-		lo.FilterOptions = &filter.StorageOptions{
+		filterOptions = &filter.StorageOptions{
 			Operation: filter.Latest,
 			Field:     filter.PredicateField,
 		}
-		// To guarantee that "lo.FilterOptions" will be cleaned at the driver level, since it was artificially created at the driver level for "LatestAnchor".
-		defer func() {
-			lo.FilterOptions = (*filter.StorageOptions)(nil)
-		}()
 	}
-	if lo.FilterOptions != nil {
-		selectedTrpls, err = executeFilter(selectedTrpls, nil, lo.FilterOptions)
+	if filterOptions != nil {
+		selectedTrpls, err = executeFilter(selectedTrpls, nil, filterOptions)
 		if err != nil {
 			return err
 		}
@@ -894,21 +886,20 @@ func (m *memory) TriplesForSubjectAndPredicate(ctx context.Context, s *node.Node
 	selectedTrpls := applyGlobalTimeBounds(m.idxSP[spIdx], ckr)
 
 	var err error
+	// The options belong to the caller (who may share them between lookups):
+	// the filter implied by LatestAnchor is kept in a local variable.
+	filterOptions := lo.FilterOptions
 	if lo.LatestAnchor {
-		if lo.FilterOptions != nil {
+		if filterOptions != nil {
 			return fmt.Errorf("cannot have LatestAnchor and FilterOptions used at the same time inside lookup options")
 		}
-		lo.FilterOptions = &filter.StorageOptions{
+		filterOptions = &filter.StorageOptions{
 			Operation: filter.Latest,
 			Field:     filter.PredicateField,
 		}
-		// To guarantee that "lo.FilterOptions" will be cleaned at the driver level, since it was artificially created at the driver level for "LatestAnchor".
-		defer func() {
-			lo.FilterOptions = (*filter.StorageOptions)(nil)
-		}()
 	}
-	if lo.FilterOptions != nil {
-		selectedTrpls, err = executeFilter(selectedTrpls, p, lo.FilterOptions)
+	if filterOptions != nil {
+		selectedTrpls, err = executeFilter(selectedTrpls, p, filterOptions)
 		if err != nil {
 			return err
 		}
@@ -949,21 +940,20 @@ func (m *memory) TriplesForPredicateAndObject(ctx context.Context, p *predicate.
 	selectedTrpls := applyGlobalTimeBounds(m.idxPO[poIdx], ckr)
 
 	var err error
+	// The options belong to the caller (who may share them between lookups):
+	// the filter implied by LatestAnchor is kept in a local variable.
+	filterOptions := lo.FilterOptions
 	if lo.LatestAnchor {
-		if lo.FilterOptions != nil {
+		if filterOptions != nil {
 			return fmt.Errorf("cannot have LatestAnchor and FilterOptions used at the same time inside lookup options")
 		}
-		lo.FilterOptions = &filter.StorageOptions{
+		filterOptions = &filter.StorageOptions{
 			Operation: filter.Latest,
 			Field:     filter.PredicateField,
 		}
-		// To guarantee that "lo.FilterOptions" will be cleaned at the driver level, since it was artificially created at the driver level for "LatestAnchor".
-		defer func() {
-			lo.FilterOptions = (*filter.StorageOptions)(nil)
-		}()
 	}
-	if lo.FilterOptions != nil {
-		selectedTrpls, err = executeFilter(selectedTrpls, p, lo.FilterOptions)
+	if filterOptions != nil {
+		selectedTrpls, err = executeFilter(selectedTrpls, p, filterOptions)
 		if err != nil {
 			return err
 		}
@@ -1010,21 +1000,20 @@ func (m *memory) Triples(ctx context.Context, lo *storage.LookupOptions, trpls c
 	selectedTrpls := applyGlobalTimeBounds(m.idx, ckr)
 
 	var err error
+	// The options belong to the caller (who may share them between lookups):
+	// the filter implied by LatestAnchor is kept in a local variable.
+	filterOptions := lo.FilterOptions
 	if lo.LatestAnchor {
-		if lo.FilterOptions != nil {
+		if filterOptions != nil {
 			return fmt.Errorf("cannot have LatestAnchor and FilterOptions used at the same time inside lookup options")
 		}
-		lo.FilterOptions = &filter.StorageOptions{
+		filterOptions = &filter.StorageOptions{
 			Operation: filter.Latest,
 			Field:     filter.PredicateField,
 		}
-		// To guarantee that "lo.FilterOptions" will be cleaned at the driver level, since it was artificially created at the driver level for "LatestAnchor".
-		defer func() {
-			lo.FilterOptions = (*filter.StorageOptions)(nil)
-		}()
 	}
-	if lo.FilterOptions != nil {
-		selectedTrpls, err = executeFilter(selectedTrpls, nil, lo.FilterOptions)
+	if filterOptions != nil {
+		selectedTrpls, err = executeFilter(selectedTrpls, nil, filterOptions)
 		if err != nil {
 			return err
 		}
